@@ -14,8 +14,9 @@ ALL = ["C%02d" % i for i in range(1, 21)]
 
 def main():
     checks = []
+    ready = set(open(os.path.join(HERE, "units", "READY")).read().split())
     for pid in ALL:
-        if pid not in checks_config.CHECKS:
+        if pid not in checks_config.CHECKS or pid not in ready:
             continue
         spec = checks_config.CHECKS[pid]
         tx = manifest_text.TEXT[pid]
@@ -32,7 +33,7 @@ def main():
             "technique": tx["technique"],
         })
     na = [{"property_id": pid, "reason": manifest_text.NOT_APPLICABLE.get(pid, "check not built yet in this round (planned; see DESIGN.md section 8)")}
-          for pid in ALL if pid not in checks_config.CHECKS]
+          for pid in ALL if pid not in checks_config.CHECKS or pid not in ready]
     doc = {
         "version": 1,
         "setup_cmd": "./check --build-all",
